@@ -148,6 +148,8 @@ type Backend struct {
 	CompressError    bool   `json:"compress_error,omitempty"` // Connect unary: the error JSON body is sent compressed, too
 	CompressEnd      bool   `json:"compress_end,omitempty"`  // gRPC-Web trailer frame / Connect end-of-stream frame sent compressed (flag bit 0)
 	TrailerCase      string `json:"trailer_case,omitempty"`  // spelling of the names in the Trailer announcement: "" canonical | lower | mixed | upper
+	TrailerOneLine   bool   `json:"trailer_one_line,omitempty"` // declared style: one "Trailer: a, b, c" line instead of one line per name
+	CompactTrailers  bool   `json:"compact_trailers,omitempty"` // gRPC-Web trailer frame lines as "name:value" (no space after the colon)
 	OKMessage        string `json:"ok_message,omitempty"`    // gRPC family: grpc-message sent next to grpc-status 0 (some servers do)
 	WritePerFrame    bool `json:"write_per_frame,omitempty"`    // one Write per frame of an enveloped response body (before chunking)
 	ReadAfterWrites  int  `json:"read_after_writes,omitempty"`  // full-duplex handler: reads the request only after this many response Write calls (0: reads first), and answers per script whatever the read yields
@@ -507,7 +509,9 @@ func (r *Recorder) writeHeaderLocked(code int) {
 			continue
 		}
 		if vals := r.transmittable(k, v); len(vals) > 0 {
-			r.Head[k] = vals
+			// field names are case-insensitive on the wire; a client sees them in canonical form
+			ck := http.CanonicalHeaderKey(k)
+			r.Head[ck] = append(r.Head[ck], vals...)
 		}
 	}
 	if cl := r.Head.Get("Content-Length"); cl != "" {
